@@ -331,7 +331,10 @@ class Sym(Interp):
         t = ("method", r, attr, self.argt(args), self.kwt(kwargs) + (self.draw_tag() if attr in IMPURE_METHODS else ()))
         self.fact("call", ctx, n, env, target="." + attr, recv=r, args=[T(a) for a in args],
                   kwargs={k: T(v) for k, v in kwargs.items()}, callkind="method", result=t, rawargs=list(args))
-        if attr in MUTATORS:
+        if attr == "shuffle" and args and n.args:
+            # generator.shuffle(x) permutes its argument in place
+            self.rebind(n.args[0], ("shuffled", T(args[0]), r) + self.draw_tag(), env, ctx)
+        elif attr in MUTATORS:
             self.rebind(n.func.value, ("mut", r, attr, self.argt(args)), env, ctx)
         return t
 
